@@ -17,6 +17,8 @@ A case:
   fork     : optional {"at": k, "alt": [basic ops]}: after ops[:k] a JUMPI on CALLVALUE (symbolic, unrelated to any byte
              sequence) forks the path; one path continues with ops[k:], the other runs alt.  Each path's memory must be
              what its own instruction sequence gives (the fork copies the memory).
+  end      : optional ["RETURN" | "REVERT", roff, rsize]: how the frame (every path of it) ends instead of STOP; the
+             output data of the path must be memory[roff, roff + rsize) zero padded (State.ret = mslice).
 The program of the executing account (whose bytes CODECOPY reads) is assembled from the ops.
 """
 import hashlib
@@ -135,12 +137,14 @@ def build(case):
             items += basic_items(op)
     if fork and fork["at"] >= len(case["ops"]):
         items += ["CALLVALUE", ("ref", "alt"), "JUMPI"]
-    items += ["MSIZE", "STOP"]
+    end = case.get("end")
+    tail = ["MSIZE", "STOP"] if not end else ["MSIZE", _push(end[2]), _push(end[1]), end[0]]
+    items += tail
     if fork:
         items.append(("label", "alt"))
         for b in fork["alt"]:
             items += basic_items(b)
-        items += ["MSIZE", "STOP"]
+        items += tail
     accounts[THIS] = asm.assemble(items)
     return accounts, callee_code
 
@@ -203,7 +207,8 @@ def spec_run(case, accounts, callee_code, ops=None):
             mem, halted = spec_basic(op, mem, rd, cd, this_code, case)
             if halted:
                 return ("halt",)
-    return ("ok", mem, rd)
+    end = case.get("end")
+    return ("ok", mem, rd, read_padded(mem, end[1], end[2]) if end else [])
 
 
 # ----------------------------------------------------------------- model side
@@ -268,6 +273,8 @@ def enc_case(case, accounts, callee_code, ops=None):
             out += [roff, rsize, oloc, osize]
         else:
             out += enc_basic(op, cd, case)
+    if case.get("end"):
+        out += [case["end"][1], case["end"][2]]
     return out
 
 
@@ -288,7 +295,9 @@ def dec_model(res):
     nr = next(it)
     rd = [next(it) for _ in range(nr)]
     msize = next(it)
-    return ("ok", ln, lay, flat, rd, msize)
+    no = next(it)
+    outd = [next(it) for _ in range(no)]
+    return ("ok", ln, lay, flat, rd, msize, outd)
 
 
 # ----------------------------------------------------------------- implementation side
@@ -360,8 +369,11 @@ def impl_run(case):
                 out += [key, -1, 9, 0, 0]
         return out, flat
 
+    end = case.get("end")
+    fine = "revert" if end and end[0] == "REVERT" else "ok"
+
     def observe(p):
-        if p.kind != "ok":
+        if p.kind != fine:
             return ("halt", p.kind)
         try:
             ex = p.ex
@@ -371,7 +383,9 @@ def impl_run(case):
             rd_items = layout(rd)[1] if rd is not None else []
             top = ex.st.stack[-1] if ex.st.stack else None
             msize = top.value if top is not None and getattr(top, "is_concrete", False) else (int(str(top)) if top is not None else None)
-            return ("ok", len(mem), lay, flat, rd_items, msize)
+            od = ex.context.output.data
+            out_items = layout(od)[1] if (end and od is not None) else []
+            return ("ok", len(mem), lay, flat, rd_items, msize, out_items)
         except Exception as e:  # noqa: BLE001
             return ("exc", f"observation failed: {type(e).__name__}: {e}"[:200])
 
@@ -432,7 +446,7 @@ def compare_spec1(case, impl, spec):
         return None
     if impl[0] == "halt":
         return {"observable": "halts", "implementation": impl[1], "spec": "runs to STOP"}
-    _, ln, lay, flat, rd, msize = impl
+    _, ln, lay, flat, rd, msize, outd = impl
     if ln != len(spec[1]):
         return {"observable": "memory-length", "implementation": ln, "spec": len(spec[1])}
     if not same_items(spec[1], flat):
@@ -443,6 +457,8 @@ def compare_spec1(case, impl, spec):
     want = (len(spec[1]) + 31) // 32 * 32
     if msize != want:
         return {"observable": "msize", "implementation": msize, "spec": want}
+    if not same_items(spec[3], outd):
+        return {"observable": "output-data", "implementation": str(outd)[:300], "spec": str(spec[3])[:300]}
     return None
 
 
@@ -494,8 +510,8 @@ def compare_model1(case, impl, model):
         return {"observable": "halts", "implementation": impl[:2], "model": model[0]}
     if impl[0] == "halt":
         return None
-    _, ln, lay, flat, rd, msize = impl
-    _, mln, mlay, mflat, mrd, mmsize = model
+    _, ln, lay, flat, rd, msize, outd = impl
+    _, mln, mlay, mflat, mrd, mmsize, moutd = model
     if ln != mln:
         return {"observable": "memory-length", "implementation": ln, "model": mln}
     if lay != mlay and not same_layout(lay, flat, mlay, mflat):
@@ -506,6 +522,8 @@ def compare_model1(case, impl, model):
         return {"observable": "returndata", "implementation": str(rd)[:300], "model": str(mrd)[:300]}
     if msize != mmsize:
         return {"observable": "msize", "implementation": msize, "model": mmsize}
+    if not same_items(moutd, outd):
+        return {"observable": "output-data", "implementation": str(outd)[:300], "model": str(moutd)[:300]}
     return None
 
 
@@ -583,6 +601,8 @@ def gen_case(r, tag="mem"):
             op = gen_basic(r, False, cdlen, rdlen, memlen)
         case["ops"].append(op)
         memlen = max(memlen, _end(op))
+    if r.random() < 0.3:
+        case["end"] = [r.choice(["RETURN", "RETURN", "REVERT"]), r.choice(GRID + [max(0, memlen - 3), memlen]), r.choice(SIZES)]
     # a path fork (JUMPI on the symbolic CALLVALUE), often while the memory is still empty
     if r.random() < 0.35:
         first_ret = next((i for i, o in enumerate(case["ops"]) if o[0] == "retcopy"), len(case["ops"]))   # only RETURNDATACOPY can halt the frame: fork before it
@@ -649,7 +669,11 @@ CORPUS += [
      "fork": {"at": 1, "alt": [["mcopy", 5, 0, 3], ["mstore8", 0, ["c", 9]]]}},
     {"tag": "mem-corpus", "calldata": [["s", 0, 33]], "ext": {"code": [0xE0 + i for i in range(12)]},
      "ops": [["copy", "cd", 0, 0, 33], ["mcopy", 1, 0, 32], ["mstore8", 40, ["c", 1]]],
-     "fork": {"at": 2, "alt": [["mstore", 16, ["c", [0xCC] * 32]]]}},
+     "fork": {"at": 2, "alt": [["mstore", 16, ["c", [0xCC] * 32]]]}, "end": ["RETURN", 30, 20]},
+    {"tag": "mem-corpus", "calldata": [["c", [1, 2, 3, 4, 5]]], "ext": {"code": [0xE0 + i for i in range(12)]},
+     "ops": [["copy", "cd", 2, 0, 5]], "end": ["REVERT", 0, 9]},
+    {"tag": "mem-corpus", "calldata": [["c", [1, 2, 3, 4, 5]]], "ext": {"code": [0xE0 + i for i in range(12)]},
+     "ops": [["copy", "cd", 2, 0, 5]], "end": ["RETURN", 4, 0]},
 ]
 
 
@@ -659,6 +683,8 @@ def gen_cases(r, n):
 
 def classify(case):
     kinds = set()
+    if case.get("end"):
+        kinds.add("ends-with-" + case["end"][0])
     if case.get("fork"):
         kinds.add("fork")
         if case["fork"]["at"] == 0:
